@@ -126,4 +126,31 @@ func init() {
 			return js
 		},
 	})
+	reg(&PropSpec{
+		ID: "C18", Level: "other",
+		Explanation: seqLevelText + ". C18: (a) inductive step: one Put/Get/Remove with symbolic key/value and an unconstrained Int63() from every valid skip-list shape with n<=2 (3 thorough) nodes of heights 1..3, symbolic strictly ascending keys, for three orders (ord.Int, reversed via ord.From, ContraMap); post-state must satisfy the representation invariant (level 0 = reference map in order, level l = sub-chain of nodes of height > l, forward pointers only, length) and answer like the reference map. (b) all histories of <=2 (3 thorough) operations from New() through the public API; (c) all Get/Remove histories of 4 (5 thorough) operations over the present keys or a fresh key from every shape of 2 (3) nodes. The float comparison float64(Int63())/2^63 < p[level] is replaced by an integer threshold comparison only after the equivalence has been proved by an SMT floating-point query (cvc5) per level.",
+		Assumptions: append([]string{"math/rand.Source.Int63 returns any value in [0, 2^63)", "the printed form (fmt) is not examined; its content (level-0 order, forward pointers) is what is asserted", "lists of more than n+1 nodes / pre-state heights above 3 / string keys are outside the claim", "math.Pow/math.Log10 on constants are evaluated natively"}, commonAssumptions...),
+		Jobs: func(tier string) []JobSpec {
+			nmax, ops := 2, 2
+			if tier == "thorough" {
+				nmax, ops = 3, 3
+			}
+			var js []JobSpec
+			for o := 0; o < 3; o++ {
+				for n := 0; n <= nmax; n++ {
+					for op := 0; op < 3; op++ {
+						js = append(js, JobSpec{Group: "skiplist", Harness: "VSkipStep", Mode: "seq", Params: map[string]int{"ord": o, "n": n, "op": op, "maxh": 3}})
+					}
+				}
+				js = append(js, JobSpec{Group: "skiplist", Harness: "VSkipHistory", Mode: "seq", Params: map[string]int{"ord": o, "ops": ops}})
+				// Get/Remove histories over the keys of a populated list (no random heights involved)
+				for w := 0; w <= nmax; w++ {
+					for op0 := 0; op0 < 2; op0++ {
+						js = append(js, JobSpec{Group: "skiplist", Harness: "VSkipHistoryFrom", Mode: "seq", Params: map[string]int{"ord": o, "n": nmax, "maxh": 2, "ops": ops + 2, "puts": 0, "which0": w, "op0": op0}})
+					}
+				}
+			}
+			return js
+		},
+	})
 }
